@@ -366,7 +366,8 @@ def run_c19_conn(chk, rng, tier):
     bigv = bytes((i * 7 + 1) % 251 for i in range(5000))
     for cap in (0, 10, 4000):
         for pre in ([("GET", [b"bigk"])], [("GET", [b"bigk"]), ("PING", []), ("GET", [b"bigk"])]):
-            steps = [(0, "s%d" % cap), (0, "g" + L.hx(b"".join(G.request_bytes(n_, a_) for n_, a_ in pre))), (0, "S")]
+            # 'f' returns when the server waits: here, inside the write of the first large reply
+            steps = [(0, "s%d" % cap), (0, "f" + L.hx(b"".join(G.request_bytes(n_, a_) for n_, a_ in pre))), (0, "S")]
             cases.append(dict(line=L.mkcase(steps, tbl={"Get:" + L.hx(b"bigk"): "mb(" + L.hx(bigv) + ")"}, default="ms(4f4b)"), endk="stop-while-write-blocked", nocorr=True,
                               desc="client stops reading (%d bytes of buffer left), sends %s, then the server is stopped [end: Stop]" % (cap, " ; ".join(n_ for n_, _ in pre))))
     for data in (b"", G.request_bytes("PING", []), G.request_bytes("PING", []) + b"*2\r\n$3\r\nGET"):
